@@ -5,6 +5,7 @@ Only I/O, parsing and printing live here; every decision is taken by `SqModel.Mo
 -/
 import SqModel.Model.Table
 import SqModel.Model.Render
+import SqModel.Model.Tcp
 import SqModel.Spec.All
 
 open Sq
@@ -268,6 +269,19 @@ partial def loop (h : IO.FS.Stream) (out : IO.FS.Stream) (st : St) : IO Unit := 
   | ["end"] =>
     out.putStrLn ("counts " ++ String.intercalate " " (st.seg.dfCount.map fun kc => "DF" ++ toString kc.1 ++ ":" ++ toString kc.2))
     loop h out { st with table := st.seg.table }
+  | ["tcp", script] =>
+    let steps := (script.splitOn ";").filter (· ≠ "")
+    let events : List ConnEvent := steps.map fun s =>
+      match s.splitOn ":" with
+      | ["refuse"] => .refuse
+      | ["close"] => .accept [] .eof
+      | ["data", hx, "reset"] => .accept (parseHexBytes hx) .reset
+      | ["data", hx, _] => .accept (parseHexBytes hx) .eof
+      | _ => .accept [] .eof
+    let r := tcpRun env st.cfg st.now st.table events
+    let sleeps := (r.2.filter fun a => match a with | .sleep _ => true | _ => false).length
+    out.putStrLn ("tcp sleeps=" ++ toString sleeps ++ " reads=" ++ toString (r.2.length - sleeps))
+    loop h out { st with table := r.1 }
   | ["adv", ms] => loop h out { st with now := st.now + (ms.toInt?.getD 0) }
   | ["dump"] =>
     let rows := sortByKey st.table
